@@ -78,7 +78,8 @@ PROPS["C16"] = {"quick": [Z("ZZ_C01_Compose", labels=["events:"], **_cmp_q1), L2
                 "assumptions": ["sequential executions; hedge/timeout/bulkhead-wait events under concurrency are asserted in the Layer-2 scenarios"]}
 PROPS["C17"] = {"quick": [Z("ZZ_C01_Compose", labels=["stats:"], **_cmp_q1), L2("ZZ_S09a_Hedge", 1, params={"max_hedges": 1}, labels=["stats:"], note="overlapping hedge attempts: Attempts/Hedges/IsHedge inside each attempt; P=1"),
                           L2("ZZ_S17b_RetryHedgeStats", 1, labels=["stats:"], note="Retry(Hedge(fn)): Attempts = 1+Retries+Hedges in OnRetry/OnDone; P=1"),
-                          Z("ZZ_C02_Retry", labels=["stats:"], **_ret_q2)], "thorough": [Z("ZZ_C01_Compose", labels=["stats:"], **_cmp_t2), L2("ZZ_S09a_Hedge", 2, params={"max_hedges": 2}, labels=["stats:"], note="P=2"), L2("ZZ_S17b_RetryHedgeStats", 2, labels=["stats:"], note="P=2"), Z("ZZ_C02_Retry", labels=["stats:"], **_ret_t)],
+                          L2("ZZ_S07b_RetryTimeout", 1, labels=["stats:"], note="Retry(Timeout(fn)): LastResult/LastError seen by the second attempt before and after its own timeout fires; P=1"),
+                          Z("ZZ_C02_Retry", labels=["stats:"], **_ret_q2)], "thorough": [Z("ZZ_C01_Compose", labels=["stats:"], **_cmp_t2), L2("ZZ_S09a_Hedge", 2, params={"max_hedges": 2}, labels=["stats:"], note="P=2"), L2("ZZ_S17b_RetryHedgeStats", 2, labels=["stats:"], note="P=2"), L2("ZZ_S07b_RetryTimeout", 2, labels=["stats:"], note="P=2"), Z("ZZ_C02_Retry", labels=["stats:"], **_ret_t)],
                 "assumptions": ["start/elapsed time monotonicity follows from the virtual clock being non-decreasing; overlapping hedges are asserted in the hedge scenario (C09)"]}
 
 
@@ -128,9 +129,10 @@ PROPS["C07"] = {
     "quick": [L2("ZZ_S07a_Timeout", 2, note="Timeout(T)(fn): T,d symbolic<2^40, sleeping and block-until-cancelled fn; P=2; " + _L2NOTE),
               L2("ZZ_S07b_RetryTimeout", 1, note="Retry(max 1)(Timeout(T)(fn)): T,d1,d2 symbolic; P=1"),
               L2("ZZ_S07c_TimeoutFallback", 1, note="Timeout(Fallback(fn)) and Fallback(Timeout(fn)), symbolic fn and fallback durations; P=1"),
+              L2("ZZ_S07f_TimeoutCtxCancel", 1, note="Timeout(T)(fn) cancelled through the caller's context at a symbolic instant, sync/async, fn returning the context error or a result: context.Canceled unchanged, listener never called, timer stopped; P=1"),
               L2("ZZ_S07d_RetryTimeoutCtx", 1, note="Retry(Timeout(fn)) + caller cancel at symbolic instant (tie d1=T excluded): ErrExceeded only if the last attempt's Timeout fired; P=1")],
     "thorough": [L2("ZZ_S07a_Timeout", 3, note="P=3"), L2("ZZ_S07b_RetryTimeout", 2, time_limit_s=2000, note="P=2"),
-                 L2("ZZ_S07c_TimeoutFallback", 2, time_limit_s=2000, note="P=2"), L2("ZZ_S07d_RetryTimeoutCtx", 2, time_limit_s=3000, note="P=2")],
+                 L2("ZZ_S07c_TimeoutFallback", 2, time_limit_s=2000, note="P=2"), L2("ZZ_S07d_RetryTimeoutCtx", 2, time_limit_s=3000, note="P=2"), L2("ZZ_S07f_TimeoutCtxCancel", 2, note="P=2")],
     "labels": ["timeout:", "retry:", "fallback:", "cancel:"],
 }
 PROPS["C06"] = {
@@ -190,7 +192,8 @@ PROPS["C14"] = {"quick": _c14, "thorough": _c14t,
 _c19 = [L2("ZZ_S07a_Timeout", 1, labels=["leak:"], note="quiescence after Timeout executions"), L2("ZZ_S07b_RetryTimeout", 1, labels=["leak:"], note="after Retry(Timeout)"),
         L2("ZZ_S09a_Hedge", 1, params={"max_hedges": 1}, labels=["leak:"], note="after hedged executions"), L2("ZZ_S08a_CancelRetry", 1, labels=["leak:"], note="after cancelled executions"),
         L2("ZZ_S08b_CancelWaits", 1, labels=["leak:"], note="after cancelled waits"), L2("ZZ_S08c_CancelHedge", 1, labels=["leak:"], note="after a cancelled hedged execution"), L2("ZZ_S15a_Async", 1, params={"readers": 1}, labels=["leak:"], note="async runner"),
-        L2("ZZ_S06a_Bulkhead", 0, params={"max_m": 1}, labels=["leak:"], note="after bulkhead executions")]
+        L2("ZZ_S06a_Bulkhead", 0, params={"max_m": 1}, labels=["leak:"], note="after bulkhead executions"),
+        L2("ZZ_S07f_TimeoutCtxCancel", 1, labels=["leak:"], note="Timeout execution ended by context cancellation: timer stopped, nothing left")]
 PROPS["C19"] = {"quick": _c19, "thorough": _c19}
 
 def FP(fn, **kw):
@@ -204,6 +207,7 @@ PROPS["C13"] = {
               FP("ZZ_H13b_JitterFactor", params=_m3, note="delay from grid x factor {0.1,0.25,0.5,1}; float32 random symbolic; tolerance 2^-22 relative"),
               FP("ZZ_H13e_Clamp", note="max-duration clamp, all quantities symbolic"),
               FP("ZZ_H13f_DelayFunc", params=_m3, note="delay function value symbolic"),
+              FP("ZZ_H13i_BuilderEnvelope", params={"mags": 1, "mag_base": 5}, note="whole getDelay of policies configured through the public builder (fixed, backoff, random, replaced configurations, delay function) x jitter kinds x max duration (symbolic, with symbolic elapsed times); 2 consecutive retries for backoff; magnitude 59.000000001s"),
               FP("ZZ_H13g_Sequence", params={"mags": 2, "mag_base": 4}, note="3 consecutive getDelay calls, backoff x{1.5,2} with jitter or jitter factor; all random draws symbolic"),
               L2("ZZ_S13h_RetryDelay", 1, labels=["delay:", "events:", "retry:"], note="Retry(delay D symbolic, optional max duration)(fn sleeping d): next attempt starts exactly when the scheduled delay elapsed; P=1")],
     "thorough": [FP("ZZ_H13a_Jitter", time_limit_s=3000, note="all 14 magnitudes 1us..1h incl. 2^24+1, 2^31-1, 2^40+1"),
@@ -211,6 +215,7 @@ PROPS["C13"] = {
                  FP("ZZ_H13b_JitterFactor", time_limit_s=3000, note="all 14 magnitudes x 4 factors"),
                  FP("ZZ_H13d_BackoffStep", time_limit_s=3000, qtimeout_s=300, note="one backoff step, lastDelay and maxDelay symbolic<2^47, factor {1.5,2,3,10}"),
                  FP("ZZ_H13e_Clamp"), FP("ZZ_H13f_DelayFunc"),
+                 FP("ZZ_H13i_BuilderEnvelope", time_limit_s=3000, note="builder-configured policies x jitter x max duration; all 14 magnitudes"),
                  FP("ZZ_H13g_Sequence", time_limit_s=3000, note="all 14 magnitudes"),
                  L2("ZZ_S13h_RetryDelay", 2, labels=["delay:", "events:", "retry:"], note="P=2")],
     "assumptions": ["configuration magnitudes come from the stated grid (float multiplication of two symbolic operands is not decided by any installed solver within 300 s); random draws, elapsed time, delay-function values and the previous backoff delay are symbolic",
@@ -223,12 +228,14 @@ PROPS["C02"]["thorough"].append(L2("ZZ_S13h_RetryDelay", 2, labels=["retry:"], n
 _c18 = [J("failsafehttp", "ZZ_H18a_RetryableStatus", note="status code symbolic in [100,600) through the real RetryPolicyBuilder"),
         J("failsafehttp", "ZZ_H18b_RetryAfter", note="status symbolic x 9 Retry-After header shapes through the real DelayFunc"),
         J("failsafehttp", "ZZ_H18d_RetryAfterScheduled", note="500, then 429/503 with Retry-After n, then 200 through the real retry policy: scheduled wait >= n seconds, taken from the attempt that just failed"),
+        J("failsafehttp", "ZZ_H18e_DoRequest", preempt=0, race=True, labels=["http:", "http-body:"], note="doRequest (core of RoundTripper and Request) over a stub transport: 0-2 retryable responses then 200; body kinds nil/*bytes.Buffer/*bytes.Reader/ReadSeeker/plain Reader with <=2 symbolic bytes; caller ctx background/with value/cancellable; executor with or without its own context"),
         J("internal/util", "ZZ_H18c_MergeContexts", preempt=1, race=True, labels=["adapter-ctx:"], note="caller ctx in {Background,TODO,cancellable,with value,with deadline(symbolic)} x execution ctx in {Background, cancellable}; who ends first; P=1")]
 _c18t = _c18[:-1] + [J("internal/util", "ZZ_H18c_MergeContexts", preempt=3, race=True, labels=["adapter-ctx:"], note="P=3")]
 PROPS["C18"] = {"quick": _c18, "thorough": _c18t,
                 "level_note": "PARTIAL: only the adapter kernels are decided (retryable-status predicate, Retry-After arithmetic, per-attempt context merging). Everything that needs a real transport (requests as received by a server, body replay, response body readable to the end, gRPC stack) is not applicable to solver-based checking here and is listed under not_applicable.",
                 "assumptions": ["error-message based classification (regexp on url.Error text, x509) is not encoded", "gRPC status.FromError is not encoded"]}
-PROPS["C19"]["quick"] = PROPS["C19"]["quick"] + [J("internal/util", "ZZ_H18c_MergeContexts", preempt=1, race=True, labels=["leak:"], note="context merger goroutine after the attempt returned")]
+PROPS["C19"]["quick"] = PROPS["C19"]["quick"] + [J("internal/util", "ZZ_H18c_MergeContexts", preempt=1, race=True, labels=["leak:"], note="context merger goroutine after the attempt returned"),
+                                                 J("failsafehttp", "ZZ_H18e_DoRequest", preempt=0, race=True, labels=["http-close:"], note="doRequest over a stub transport, 0-2 retried responses then 200: every response obtained but not returned is closed, the returned one is not")]
 PROPS["C19"]["thorough"] = [dict(j, preempt=2, time_limit_s=9000, note=(j.get("note", "") + "; P=2")) for j in PROPS["C19"]["quick"]]
 PROPS["C19"]["level_note"] = "PARTIAL: core library goroutines/timers and the HTTP/gRPC context merger are decided; release of pooled connections when a response is not closed is net/http.Transport behaviour and not applicable (listed under not_applicable)."
 
